@@ -60,12 +60,15 @@ func httpGet(path string) (int, []byte) {
 }
 
 var hostile = []string{".", "..", "...x", ".leading dot", "\x00nul\x00", "caf\xe9 \xff\xfe", "bare\rcr", "\rstarts", "ends\r", "", "",
-	"plain text", "Subject: x", "From: <a@b.org>", ".\r", "a.b", " .", "\t", "=", "line with trailing space "}
+	"plain text", "Subject: x", "From: <a@b.org>", ".\r", "a.b", " .", "\t", "=", "line with trailing space ",
+	"\xef\xbb\xbf", "\xef\xbb\xbftext after a byte order mark", "\xef\xbb\xbfSubject: bom before a header", "\xfe\xff", "\xef\xbb", "\x1b[0m", "\x7f"}
 
 func genLines(g *vh.Gen, maxLen int) []string {
 	n := g.Intn(9)
 	ls := make([]string, 0, n+3)
-	if g.Chance(0.6) {
+	if g.Chance(0.06) { // the very first bytes of the content are special to some decoders
+		ls = append(ls, g.Pick("\xef\xbb\xbf", "\xef\xbb\xbfhello", "\xef\xbb\xbfSubject: s", "\xff\xfe", "\x00", " leading space", "\tleading tab", ">From x"))
+	} else if g.Chance(0.6) {
 		ls = append(ls, "From: <a@b.org>", "Subject: "+g.Pick("s", "", "x y"), "")
 	} else if g.Chance(0.9) {
 		ls = append(ls, "") // empty header block, so that the payload is accepted
